@@ -45,6 +45,7 @@ void shape_labels(const Shape& sh, int cfg) {
     if (m >= 2 && hi >= 8 * lo) pbt::label("lengths_very_unequal");
     if (lo == 1 && m >= 2) pbt::label("has_len1_seq");
     if (hi >= 64) pbt::label("nmax>=64");
+    if (sh.m >= 17) pbt::label("m>=17");
     if (sh.wide) pbt::label("keys_wide");
     else if (sh.distinct == 1) pbt::label("keys_all_equal");
     else pbt::label("keys_few_distinct");
